@@ -24,6 +24,52 @@ def model_check(scn, workers=16):
         shutil.rmtree(d, ignore_errors=True)
 
 
+def queue_part(chk, EoN):
+    """EventQueue.tla: heap implementation = reference queue on every add/pop history in the bound; every
+    history is replayed into the real myQueue (pop order incl. FIFO on ties, events at or after tmax dropped)"""
+    maxops = 6 if chk.tier == "quick" else 7
+    cfg = tlc.cfg_text({"MaxT": 3, "Tmax": 3, "MaxOps": maxops},
+                       invariants=["HeapInvariant", "SameContent", "HeapTopIsMin", "NothingAtOrAfterTmax", "EmitHist"],
+                       properties=["PopAgrees", "FifoOnTies"])
+    res = tlc.run_tlc("EventQueue", cfg, workers=1, coverage=True, timeout=1800)
+    chk.add_tlc("EventQueue: every add/pop history of %d operations" % maxops, res)
+    if res.violation:
+        chk.violation("spec|EventQueue|" + res.violation[:60], "TLC: " + res.violation, {})
+    for a in ("Add", "Pop"):
+        if res.coverage.get(a, (0, 0))[1] == 0:
+            raise common.MachineryFailure("vacuous EventQueue run")
+    n = 0
+    for rec in res.printed("H"):
+        hist = rec[1]
+        Q = EoN.simulation.myQueue(tmax=3)
+        popped = []
+        k = 0
+        bad = None
+        for op in hist:
+            if op[0] == "add":
+                k += 1
+                Q.add(op[1], lambda t, ident: popped.append((t, ident)), args=(k,))
+            else:
+                before = len(popped)
+                try:
+                    Q.pop_and_run()
+                except Exception as ex:
+                    bad = "pop raised %r" % (ex,)
+                    break
+                if len(popped) != before + 1 or popped[-1] != (op[1], op[2]):
+                    bad = "pop returned %r, the queue specification gives time %r of add #%r" % (popped[before:], op[1], op[2])
+                    break
+        want_len = rec[2]
+        if bad is None and len(Q) != want_len:
+            bad = "len(Q) = %d after the history, specification %d" % (len(Q), want_len)
+        n += 1
+        chk.cov["evaluations"] += 1
+        chk.cov["traces_validated_against_impl"] += 1
+        if bad:
+            chk.violation("myQueue|pop-order-or-horizon|", bad + " in history %r" % (hist,), {"history": hist})
+    chk.part("myQueue", histories=n)
+
+
 def _run(i):
     EoN = _G["EoN"]
     return event_sir.run_all(_G["scn"][i], _G["refs"][i], EoN)
@@ -53,6 +99,8 @@ def main():
     if len(refs) != len(scn):
         raise common.MachineryFailure("TLC emitted %d reference outcomes for %d scenarios" % (len(refs), len(scn)))
     _G.update(EoN=EoN, scn=scn, refs=refs)
+    if not rp:
+        queue_part(chk, EoN)
     results = pool_map(_run, range(len(scn)))
     nontriv = 0
     for i, probs in enumerate(results):
